@@ -120,6 +120,24 @@ def make_abort_scn(rng, base, point, kind):
     return scn
 
 
+def leave_points(scn):
+    """Points at which a seat may walk away: every decision point plus the start of every deal."""
+    pts = [(b, 'deal', 0) for b in range(len(scn['boards']))]
+    pts += [(b, ph, i) for b, ph, i, _ in abort_points(scn)]
+    return pts
+
+
+def make_leave_scn(base, point, seat):
+    """`seat`'s client closes its connection when the session reaches `point` (whoever is to act
+    there); the operator interrupts the table manager once everything has come to a standstill."""
+    scn = copy.deepcopy(base)
+    scn['family'] = 'S3'
+    scn['seats'][seat]['kind'] = 'scripted'
+    scn['abort'] = {'kind': 'leave', 'what': 'client-leaves+interrupt', 'seat': seat,
+                    'board': point[0], 'phase': point[1], 'index': point[2]}
+    return scn
+
+
 def gen_base(rng, nboards=None):
     nb = nboards if nboards is not None else rng.choice((1, 2, 2, 3))
     table = rng.choice(('bundled', 'scripted', 'mixed'))
@@ -343,7 +361,16 @@ def run_task(task):
         n = task.get('n', 4)
         for j in range(n):
             sched = s1.gen_sched(rng, info)
-            if rng.random() < 0.3:
+            r = rng.random()
+            if r < 0.2:
+                # a client walks away (any seat, any point); when the table manager hangs on it
+                # -- at once if that seat is needed, at the next deal if it is not (dummy) -- the
+                # operator interrupts
+                lp = leave_points(base)
+                pt = rng.choice(lp)
+                scn = make_leave_scn(base, pt, rng.choice(rb.SEATS))
+                sched['interrupt_on_hang'] = True
+            elif r < 0.45:
                 it = gen_interrupt(rng, info)
                 if it is None:
                     continue
@@ -378,6 +405,15 @@ def run_task(task):
                     sample, _ = run_one(scn, sched, props, st, findings, 's3e:' + sched['label'])
                     if len(samples) < 2:
                         samples.append(sample)
+        nleave = 0
+        for pt in leave_points(base):
+            for seat in rb.SEATS:
+                scn = make_leave_scn(base, pt, seat)
+                sched = session.default_sched()
+                sched['label'] = 'fifo'
+                sched['interrupt_on_hang'] = True
+                nleave += 1
+                run_one(scn, sched, props, st, findings, 's3e:leave')
         nint = 0
         for it in all_interrupts(info):
             scn = copy.deepcopy(base)
@@ -390,7 +426,7 @@ def run_task(task):
             run_one(scn, sched, props, st, findings, 's3e:interrupt')
         st['exhaustive'] = {'base_seed': task['seed'], 'boards': len(base['boards']),
                             'decision_points': len(pts), 'offending_points_x_kinds': npoints,
-                            'interrupt_points': nint}
+                            'interrupt_points': nint, 'leave_points_x_seats': nleave}
     return {'stats': st, 'findings': findings[:20], 'samples': samples, 'nfindings': len(findings)}
 
 
